@@ -1,4 +1,6 @@
-(* Tactics and small lemmas shared by Proofs/PylEquivAgg.v and Proofs/PylEquivIter.v.
+(* Tactics and small lemmas shared by Proofs/PylEquivAgg.v, Proofs/PylEquivIter.v and Proofs/PylEquivZip.v.
+   At the end: the statements of the first three batches never produce the signal [Exc] ([exec_noexc]), so for
+   them [run_genfn] is [exec body ;;; ret tt] ([run_genfn_noexc]).
    [norm] relies on the primitives of the calculus being kept folded by [cbn]: each of the two files
    declares them [simpl never] locally (an [Arguments] declaration here would leak into every file
    that requires this one). *)
@@ -35,3 +37,103 @@ Proof. intros H. apply (orel_mono eq); [intros; exact I|apply orel_of_eq, H]. Qe
 Lemma mbind_unit_end (m : M unit) (k : unit -> M unit) :
   (forall u w, k u w = ret tt w) -> forall w, bind m k w = m w.
 Proof. intros Hk w. etransitivity; [|apply mbind_ret_tt]. apply mbind_cong_r, Hk. Qed.
+
+(* ---------- the statements of the first three batches never signal [Exc] ----------
+   [Exc] is only produced by the library-level [anext] constructs of the fourth batch ([SAnext], [SAnextRow],
+   [SAppendAnext]).  For a function built from the other statements the final [match] of [run_genfn] is therefore
+   dead code, and [run_genfn f args] is [exec body ;;; ret tt] as it was before the fourth batch. *)
+Fixpoint noexc (s : stmt) : bool :=
+  match s with
+  | SSkip | SAssign _ _ | SAwaitify _ | SSetFnBool _ | SYield _ | SAnextDefault _ _ | SRaise _
+  | SSlicePrelude | SBreak | SReturn _ | SUnsupported _ => true
+  | SForZipBorrowed _ _ _ _ _ | SForZipOwned _ _ _ => true
+  | SSeq a b | SIf _ a b | SFor _ _ a b | SForEnum _ _ _ _ a b => noexc a && noexc b
+  | SWith _ _ a | SAnextOr _ _ a => noexc a
+  | _ => false
+  end.
+
+(* a postcondition on [Ok] results *)
+Definition post {A} (P : A -> Prop) (r : outcome A * world) : Prop :=
+  match fst r with Ok a => P a | _ => True end.
+Lemma post_ret {A} (P : A -> Prop) a w : P a -> post P (ret a w).
+Proof. intros H. exact H. Qed.
+Lemma post_raise {A} (P : A -> Prop) e w : post P (raise e w).
+Proof. exact I. Qed.
+Lemma post_bind2 {A B} (Q : A -> Prop) (P : B -> Prop) (m : M A) (f : A -> M B) w :
+  post Q (m w) -> (forall a w', Q a -> post P (f a w')) -> post P (bind m f w).
+Proof.
+  unfold post, bind. intros Hm Hf. destruct (m w) as [[a|e|] w1]; cbn [fst] in *; [apply Hf, Hm|exact I|exact I].
+Qed.
+Lemma post_bind {A B} (P : B -> Prop) (m : M A) (f : A -> M B) w :
+  (forall a w', post P (f a w')) -> post P (bind m f w).
+Proof. intros Hf. apply (post_bind2 (fun _ => True)); [|intros a w' _; apply Hf]. unfold post. destruct (fst (m w)); exact I. Qed.
+Lemma post_finally {A} (P : A -> Prop) (m : M A) fin w : post P (m w) -> post P (finally m fin w).
+Proof.
+  unfold post, finally. intros Hm. destruct (m w) as [[a|e|] w1]; cbn [fst] in *;
+    try exact I; destruct (fin w1) as [[u|e'|] w2]; cbn [fst]; auto.
+Qed.
+Lemma post_iter_src {St} (P : St -> Prop) i (body : St -> val -> M (St * bool)) :
+  (forall s x w, P s -> post (fun r => P (fst r)) (body s x w)) ->
+  forall n s w, P s -> post (fun r => P (fst r)) (iter_src n i body s w).
+Proof.
+  intros Hb. induction n as [|n IHn]; intros s w HP; [exact I|].
+  cbn [iter_src]. apply post_bind. intros [x|] w1; [|apply post_ret; exact HP].
+  apply (post_bind2 (fun r => P (fst r))); [apply Hb, HP|].
+  intros [s' [|]] w2 HP'; cbn [fst snd] in *; [apply IHn, HP'|apply post_ret; exact HP'].
+Qed.
+
+Definition sig_noexc (r : env * sig) : Prop := match snd r with Exc _ => False | _ => True end.
+
+Lemma exec_noexc : forall s en yield w, noexc s = true -> post sig_noexc (exec s en yield w).
+Proof.
+  induction s; intros en yield w H; cbn [noexc] in H; try discriminate H;
+    try (apply andb_prop in H; destruct H as [H1 H2]); cbn [exec].
+  - apply post_ret. exact I.
+  - apply (post_bind2 sig_noexc); [apply IHs1, H1|]. intros [en1 sg] w1 Hs. cbn [fst snd].
+    destruct sg; try (apply post_ret; exact Hs). apply IHs2, H2.
+  - apply post_bind. intros v w1. apply post_ret. exact I.
+  - apply post_bind. intros v w1. apply post_ret. exact I.
+  - apply post_ret. exact I.
+  - apply post_bind. intros v w1. destruct (truthy v); [apply IHs1, H1|apply IHs2, H2].
+  - apply post_bind. intros v w1. apply post_bind. intros u w2. apply post_ret. exact I.
+  - apply post_bind. intros i w1. unfold scoped. apply post_finally, IHs, H.
+  - apply post_bind. intros i w1.
+    apply (post_bind2 (fun r : env * sig * bool => sig_noexc (fst r))).
+    + unfold loop_src. apply (post_iter_src sig_noexc); [|exact I].
+      intros st x0 w2 _. apply (post_bind2 sig_noexc); [apply IHs1, H1|].
+      intros [en1 sg] w3 Hs. cbn [fst snd]. destruct sg; apply post_ret; exact Hs.
+    + intros [[en1 sg] c] w2 Hs. cbn [fst snd] in *. destruct sg; try (apply post_ret; exact Hs).
+      apply IHs2, H2.
+  - apply post_bind. intros i w1. apply post_bind. intros [v|] w2; [apply post_ret; exact I|apply IHs, H].
+  - apply post_bind. intros i w1. apply post_bind. intros [v|] w2; apply post_ret; exact I.
+  - apply post_raise.
+  - apply post_bind. intros i w1. apply post_bind. intros k w2.
+    destruct k; try apply post_raise.
+    apply (post_bind2 (fun r : env * sig * Z * bool => sig_noexc (fst (fst r)))).
+    + unfold loop_src. apply (post_iter_src (fun st : env * sig * Z => sig_noexc (fst st))); [|exact I].
+      intros st x0 w3 _. apply (post_bind2 sig_noexc); [apply IHs1, H1|].
+      intros [en1 sg] w4 Hs. cbn [fst snd]. destruct sg; apply post_ret; exact Hs.
+    + intros [[[en1 sg] z0] c0] w3 Hs. cbn [fst snd] in *. destruct sg; try (apply post_ret; exact Hs).
+      apply IHs2, H2.
+  - apply post_bind. intros i w1. apply post_bind. intros j w2. apply post_bind. intros u w3. apply post_ret. exact I.
+  - apply post_bind. intros ss w1. apply post_bind. intros u w2. apply post_ret. exact I.
+  - apply post_ret. exact I.
+  - apply post_ret. exact I.
+  - destruct e as [e|]; [apply post_bind; intros v w1|]; apply post_ret; exact I.
+  - apply post_raise.
+Qed.
+
+Lemma run_genfn_noexc f args yield w :
+  noexc (f_body f) = true ->
+  run_genfn f args yield w = bind (exec (f_body f) (bind_args (f_params f) args empty_env) yield) (fun _ => ret tt) w.
+Proof.
+  intros H. unfold run_genfn, run_genfn_in, empty_env, bind.
+  pose proof (exec_noexc (f_body f) (bind_args (f_params f) args (env_with [])) yield w H) as Hp.
+  unfold post in Hp.
+  destruct (exec (f_body f) (bind_args (f_params f) args (env_with [])) yield w) as [[[en sg]|e|] w1];
+    cbn [fst snd] in *; try reflexivity.
+  destruct sg; try reflexivity. contradiction.
+Qed.
+
+Print Assumptions exec_noexc.
+Print Assumptions run_genfn_noexc.
